@@ -83,6 +83,55 @@ func TestVerifC30(t *testing.T) {
 	nameExtras := []string{"zzz", "a/b/c", "y/1", "cam", "cam10", "c", "ab", "x/cam/b", "2024", "a_1700000000"}
 	das := []time.Duration{0, 0, 10 * time.Second, time.Hour, 24 * time.Hour, 24 * time.Hour, 365 * 24 * time.Hour}
 
+	// families of cases beside the legacy mix (every quick run draws all of them):
+	//  flat-lookalike:    %path is part of the file name, so every path shares the walked directory; path names with
+	//                     regexp metacharacters (dots) and look-alike siblings written with the same starts
+	//  metachar-literals: each of the 14 characters Decode escapes as a literal of the record path, before and after %path
+	//  multi-path:        %path more than once (the lazy groups are separated by one literal)
+	flatTails := []string{
+		"rec/%path_%Y-%m-%d_%H-%M-%S-%f",
+		"rec/%path-%s",
+		"%path_%s-%f",
+		"rec/v1.0/%path.%Y-%m-%d_%H-%M-%S-%f",
+		"rec/%path.%s.%f",
+		"rec/%path_%Y-%m-%d_%H-%M-%S-%f%z",
+	}
+	flatStatic := []string{"cam.1", "camA1", "cam11", "cam_1", "Cam.1", "a.b", "aXb", "v1.2/cam", "v1x2/cam"}
+	flatRegex := []string{"~^cam.*$", "~^cam\\.[0-9]$", "all_others", "~^(a|v1).*$", "~^[a-z.]+[0-9]$"}
+	flatExtras := []string{"cam-1", "CAM.1", "cam.12", "a-b", "a.b.c", "v1.2/Cam"}
+	lookalikes := [][]string{
+		{"cam.1", "camA1", "cam11", "cam_1", "Cam.1", "cam-1", "CAM.1", "cam.12"},
+		{"a.b", "aXb", "a-b", "a.b.c"},
+		{"v1.2/cam", "v1x2/cam", "v1.2/Cam"},
+	}
+	metaTails := []string{
+		"rec/a+b/%path/%Y-%m-%d_%H-%M-%S-%f",
+		"rec/v1.0/%path/%s",
+		"rec/b\\c/%path/%s-%f",
+		"rec/(x)[1]{2}/%path/%s",
+		"rec/%path/seg+%s",
+		"rec/%path/(%Y-%m-%d)_%H-%M-%S-%f",
+		"rec/%path/[%s]",
+		"rec/%path/%s{1}",
+		"rec/%path/a|%s",
+		"rec/%path/^%s$",
+		"rec/%path/x*%s",
+		"rec/%path/x?%s",
+		"rec/%path/a+b/%s",
+		"rec/%path/a.b+c(%s)",
+		"rec/%path/%Y.%m.%d/%H.%M.%S.%f",
+	}
+	multiTails := []struct{ tail, sep string }{
+		{"rec/%path/%path_%s", "/"},
+		{"rec/%path.%path_%Y-%m-%d_%H-%M-%S-%f", "."},
+		{"rec/%path_%path-%s-%f", "_"},
+		{"rec/%path.%path.%s", "."},
+		{"rec/%path+%path/%s", "+"},
+		{"rec/%path%path_%s", ""},
+	}
+	multiNames := []string{"a", "cam1", "b", "c", "cam.1", "a/b", "x_y", "cam2"}
+	const metaChars = "\\.+*?^$()[]{}|"
+
 	for i := 0; i < n; i++ {
 		loff := vPick(r, []int{0, 0, 3600, -12600, 20700})
 		time.Local = time.FixedZone("vlocal", loff)
@@ -94,14 +143,41 @@ func TestVerifC30(t *testing.T) {
 		nconf := 1 + r.Intn(4)
 		shared := r.Chance(1, 2)
 		sharedTail := vPick(r, tails)
+		family := "legacy"
+		staticUse, regexUse, extrasUse := staticNames, regexNames, nameExtras
+		multiSep, multiAmbiguous := "", false
+		switch f := r.Intn(20); {
+		case f < 4:
+			family, shared, sharedTail = "flat-lookalike", true, vPick(r, flatTails)
+			staticUse, regexUse, extrasUse = flatStatic, flatRegex, flatExtras
+		case f < 7:
+			family, shared, sharedTail = "metachar-literals", true, vPick(r, metaTails)
+			if r.Bool() {
+				staticUse, regexUse, extrasUse = flatStatic, flatRegex, flatExtras
+			}
+		case f < 9:
+			mt := vPick(r, multiTails[:len(multiTails)-1])
+			if r.Chance(1, 12) {
+				mt = multiTails[len(multiTails)-1]
+			}
+			family, shared, sharedTail, multiSep = "multi-path", true, mt.tail, mt.sep
+			multiAmbiguous = mt.sep == "" || r.Chance(1, 5)
+			staticUse, regexUse, extrasUse = nil, []string{"~^cam.*$", "all_others", "~^[a-c]$", "~^.*$", "~^(a|x).*$"}, nil
+			for _, nm := range multiNames {
+				if multiAmbiguous || !strings.Contains(nm, mt.sep) {
+					staticUse = append(staticUse, nm)
+				}
+			}
+		}
+		familyExt := vPick(r, []string{".mp4", ".mp4", ".mp4", ".ts"})
 		var confs []vC30Conf
 		used := map[string]bool{}
 		for len(confs) < nconf {
 			var name string
 			if r.Chance(1, 2) {
-				name = vPick(r, staticNames)
+				name = vPick(r, staticUse)
 			} else {
-				name = vPick(r, regexNames)
+				name = vPick(r, regexUse)
 			}
 			if used[name] {
 				continue
@@ -110,6 +186,9 @@ func TestVerifC30(t *testing.T) {
 			c := vC30Conf{name: name, da: vPick(r, das), ext: ".mp4"}
 			if r.Chance(1, 5) {
 				c.ext = ".ts"
+			}
+			if family != "legacy" {
+				c.ext = familyExt // one format for every configuration of the case
 			}
 			switch {
 			case name == "all_others":
@@ -152,16 +231,88 @@ func TestVerifC30(t *testing.T) {
 			}
 			return os.WriteFile(p, []byte("x"), 0o644) == nil
 		}
-		pool := append(append([]string{}, staticNames...), nameExtras...)
+		pool := append(append([]string{}, staticUse...), extrasUse...)
 		var genNames []string
 		nseg := 0
+		// ground truth: the segments written with the real Encode: file, owner, configuration index, start as the
+		// format keeps it (microseconds with %f, else seconds)
+		type vC30Rec struct {
+			file, owner string
+			conf        int
+			u, n        int64
+		}
+		var recorded []vC30Rec
+		ambiguous := false
+		nsib, nforeign := 0, 0
+		record := func(seg, pn string, ci int, st time.Time) {
+			ns := int64(0)
+			if strings.Contains(confs[ci].rp, "%f") {
+				ns = int64(st.Nanosecond()) / 1000 * 1000
+			}
+			recorded = append(recorded, vC30Rec{seg, pn, ci, st.Unix(), ns})
+			if multiSep != "" || family == "multi-path" {
+				if multiSep == "" || strings.Contains(pn, multiSep) {
+					ambiguous = true
+				}
+			}
+		}
+		// a foreign file next to seg: one regexp metacharacter of the name (below the case directory) replaced or
+		// dropped so that the name no longer is the format's literal text around well-formed fields. '.' is only
+		// replaced by '#' (no path name contains '#'; dropping a dot of cam.1 would give a segment of cam1).
+		foreign := func(seg string) {
+			rel := seg[len(base):]
+			var pos []int
+			for k := 1; k < len(rel); k++ {
+				if strings.IndexByte(metaChars, rel[k]) >= 0 {
+					pos = append(pos, k)
+				}
+			}
+			if len(pos) == 0 {
+				return
+			}
+			k := vPick(r, pos)
+			var m string
+			switch op := r.Intn(4); {
+			case rel[k] == '.' || op == 0:
+				m = rel[:k] + "#" + rel[k+1:]
+			case op == 1:
+				m = rel[:k] + rel[k+1:]
+			case op == 2 && rel[k-1] != '/':
+				m = rel[:k] + string(rel[k-1]) + rel[k+1:]
+			case op == 3 && rel[k-1] != '/':
+				m = rel[:k-1] + rel[k+1:]
+			default:
+				m = rel[:k] + "#" + rel[k+1:]
+			}
+			if m != rel && write(base+m) {
+				protected[base+m] = true
+				nforeign++
+			}
+		}
 		for g := 2 + r.Intn(5); g > 0; g-- {
-			c := vPick(r, confs)
+			ci := r.Intn(len(confs))
+			c := confs[ci]
 			pn := vPick(r, pool)
 			if c.re == nil && r.Chance(2, 3) {
 				pn = c.name
 			}
 			genNames = append(genNames, pn)
+			// look-alike siblings get the same starts
+			var sibs []string
+			if family == "flat-lookalike" || (family == "metachar-literals" && r.Bool()) {
+				for _, fam := range lookalikes {
+					for _, x := range fam {
+						if x == pn {
+							for k := 1 + r.Intn(2); k > 0; k-- {
+								if y := vPick(r, fam); y != pn {
+									sibs = append(sibs, y)
+									genNames = append(genNames, y)
+								}
+							}
+						}
+					}
+				}
+			}
 			rf := conf.RecordFormatFMP4
 			if c.ext == ".ts" {
 				rf = conf.RecordFormatMPEGTS
@@ -225,6 +376,19 @@ func TestVerifC30(t *testing.T) {
 				default:
 					if write(seg) {
 						nseg++
+						record(seg, pn, ci, st)
+						if family != "legacy" && family != "multi-path" && r.Chance(1, 3) {
+							foreign(seg)
+						}
+					}
+					for _, sb := range sibs {
+						sseg := recordstore.Path{Start: st.In(time.Local)}.Encode(
+							recordstore.PathAddExtension(strings.ReplaceAll(c.rp, "%path", sb), rf))
+						if write(sseg) {
+							nseg++
+							nsib++
+							record(sseg, sb, ci, st)
+						}
 					}
 				}
 			}
@@ -342,11 +506,35 @@ func TestVerifC30(t *testing.T) {
 		} else {
 			class += "-mixed-record-paths"
 		}
+		class += "|" + family
+		if nsib > 0 {
+			class += "+siblings"
+		}
+		if nforeign > 0 {
+			class += "+foreign"
+		}
+		if ambiguous {
+			// KNOWN_FINDINGS (C26 degenerate-format): a name containing the literal between two %path is not
+			// recovered by Decode, so a regular-expression configuration never reports the path
+			class = "multi-path-ambiguous-name"
+		}
+		sort.Slice(recorded, func(a, b int) bool { return recorded[a].file < recorded[b].file })
+		var recDesc []any
+		recCoq := make([]string, len(recorded))
+		treeIdx := map[string]int{}
+		for k, e := range before {
+			treeIdx[e.path] = k
+		}
+		for k, x := range recorded {
+			recCoq[k] = "(" + cqZ(int64(treeIdx[x.file])) + "%nat, " + cqBytes(x.owner) + ", " + cqZ(int64(x.conf)) + "%nat, " + cqZ(x.u) + ", " + cqZ(x.n) + ")"
+			recDesc = append(recDesc, map[string]any{"file": alias(x.file), "path": x.owner, "conf": x.conf,
+				"start": time.Unix(x.u, x.n).UTC().Format(time.RFC3339Nano)})
+		}
 		out.Case(cqApp("Pass", cqZ(int64(loff)), cqList(confCoq), cqZ(nowNs), cqList(treeCoq), cqList(rtab), cqList(ftab),
-			cqListOf(prot, func(s string) string { return cqBytes(s) }), cqListOf(names, func(s string) string { return cqBytes(s) }),
+			cqListOf(prot, func(s string) string { return cqBytes(s) }), cqList(recCoq), cqListOf(names, func(s string) string { return cqBytes(s) }),
 			cqListOf(removed, func(s string) string { return cqBytes(s) })),
 			map[string]any{"local_offset": loff, "confs": confDesc, "now": now.UTC().Format(time.RFC3339Nano), "files": treeDesc,
-				"resolves_to": ftabDesc, "path_names": names, "removed": removed},
+				"resolves_to": ftabDesc, "path_names": names, "removed": removed, "family": family, "recorded": recDesc},
 			class, len(removed) > 0 && len(removed) < nfiles)
 		os.RemoveAll(base)
 	}
